@@ -1,12 +1,12 @@
 CONSTANTS Urls <- UrlsC
           Texts <- TextsC
-          Cfgs <- CfgsC
-          ForgetIdentRecord = TRUE
+          Cfgs <- OneCfg
+          ForgetIdentRecord = FALSE
           ConfigRebuilds = TRUE
-          MaxMsgs = 4
+          MaxMsgs = 3
           MaxInFlight = 1
           VersionGuard = FALSE
-          RefreshFromMemory = FALSE
+          RefreshFromMemory = TRUE
 INIT LInit
 NEXT LNext
 INVARIANTS LastWordUnlessOverlapped
